@@ -143,3 +143,83 @@ func writeJobSlices(w *bufio.Writer, s *vt.Sched, tag string) int {
 	}
 	return n
 }
+
+// writeBatchSlices emits, per batch (keyed by its WgCounter), the raw events of coq/SliceBatch.v
+func writeBatchSlices(w *bufio.Writer, s *vt.Sched, tag string) int {
+	wgcOf := map[string]int{}  // batch idx -> wgc object
+	respOf := map[int]int{}    // Response object -> wgc object
+	chanOf := map[int]int{}    // channel object -> wgc object
+	for _, ev := range s.Log {
+		switch ev.Kind {
+		case "batch:wgc":
+			wgcOf[ev.Val] = ev.Obj
+		}
+	}
+	for _, ev := range s.Log {
+		switch ev.Kind {
+		case "batch:resp":
+			respOf[ev.Obj] = wgcOf[ev.Val]
+		case "batch:chan":
+			chanOf[ev.Obj] = wgcOf[ev.Val]
+		}
+	}
+	lines := map[int][]string{}
+	order := []int{}
+	size := map[int]string{}
+	emit := func(b int, line string) {
+		if b == 0 {
+			return
+		}
+		if _, ok := lines[b]; !ok {
+			order = append(order, b)
+		}
+		lines[b] = append(lines[b], line)
+	}
+	for _, ev := range s.Log {
+		si := siteTab[ev.Site]
+		fn := si.Func
+		switch {
+		case ev.Kind == "add" && fn == "NewWgCounter":
+			size[ev.Owner] = ev.Val
+			emit(ev.Owner, "bnew "+ev.Val)
+		case ev.Kind == "wgadd" && fn == "NewWgCounter":
+			// part of bnew
+		case ev.Kind == "load" && fn == "WgCounter.Done":
+			emit(ev.Owner, fmt.Sprintf("bdoneload %d %s", ev.Tid, ev.Val))
+		case ev.Kind == "cas" && fn == "WgCounter.Done":
+			emit(ev.Owner, fmt.Sprintf("bdonecas %d %s", ev.Tid, ev.Val[:1]))
+		case ev.Kind == "wgadd" && fn == "WgCounter.Done":
+			emit(ev.Owner, fmt.Sprintf("bwgdone %d", ev.Tid))
+		case ev.Kind == "load" && fn == "WgCounter.Count":
+			emit(ev.Owner, fmt.Sprintf("bload %d %s", ev.Tid, ev.Val))
+		case ev.Kind == "wgwait" && fn == "WgCounter.Wait":
+			emit(ev.Owner, fmt.Sprintf("bwait %d", ev.Tid))
+		case (ev.Kind == "load" || ev.Kind == "store" || ev.Kind == "add" || ev.Kind == "cas" || ev.Kind == "wgadd" || ev.Kind == "wgwait") && strings.HasPrefix(fn, "WgCounter."):
+			emit(ev.Owner, fmt.Sprintf("? %d %s %s", ev.Tid, ev.Kind, si.Name))
+		case ev.Kind == "send" && fn == "Response.Send":
+			emit(respOf[ev.Owner], fmt.Sprintf("bsend %d", ev.Tid))
+		case ev.Kind == "close" && fn == "Response.Close":
+			b := respOf[ev.Owner]
+			if b != 0 && size[b] == "0" {
+				emit(b, "bcloseempty")
+			} else {
+				emit(b, fmt.Sprintf("bclose %d", ev.Tid))
+			}
+		case ev.Kind == "recv" && ev.Site == 0:
+			emit(chanOf[ev.Obj], fmt.Sprintf("brecv %d %s", ev.Tid, ev.Val))
+		}
+	}
+	n := 0
+	for _, b := range order {
+		if _, ok := size[b]; !ok {
+			continue
+		}
+		fmt.Fprintf(w, "BATCH %s o%d\n", tag, b)
+		for _, l := range lines[b] {
+			w.WriteString("b " + l + "\n")
+		}
+		fmt.Fprintf(w, "ENDBATCH\n")
+		n++
+	}
+	return n
+}
